@@ -58,9 +58,11 @@ def noneBody : B → R B
       let v' ← setValidity v len false
       let fs' ← pushDefaultKAll fs 1
       pure (.struct p (len + 1) v' fs' cached next seen)
-  | b@(.dictionary p idx vals index) => do
-      let idx' ← ctx b.ann (pushNone idx)
-      pure (.dictionary p idx' vals index)
+  | b@(.dictionary p idx vals index) =>
+      if idx.isNullable = false then fail "Cannot push null for non-nullable array"
+      else do
+        let idx' ← ctx b.ann (pushNone idx)
+        pure (.dictionary p idx' vals index)
   | .union _ _ _ _ _ => fail "serialize_unit/serialize_none is not supported"
 
 /-- `k` × `serialize_default` of `b` without the `.ctx(self)` wrapper (copy of the arms of `pushDefaultK`) -/
